@@ -30,7 +30,19 @@ pub(super) fn execute_skip<'a, S: GraphSnapshot + 'a>(
         Err(err) => return PlanIterator::Dynamic(Box::new(std::iter::once(Err(err)))),
     };
     let input_iter = execute_plan(snapshot, input, params);
-    PlanIterator::Dynamic(Box::new(input_iter.skip(skip)))
+    // `Iterator::skip` would also discard `Err` items among the skipped rows; only `Ok` rows count.
+    let mut remaining = skip;
+    PlanIterator::Dynamic(Box::new(input_iter.filter(move |result| match result {
+        Ok(_) => {
+            if remaining > 0 {
+                remaining -= 1;
+                false
+            } else {
+                true
+            }
+        }
+        Err(_) => true,
+    })))
 }
 
 pub(super) fn execute_limit<'a, S: GraphSnapshot + 'a>(
@@ -54,19 +66,18 @@ pub(super) fn execute_distinct<'a, S: GraphSnapshot + 'a>(
 ) -> PlanIterator<'a, S> {
     let input_iter = execute_plan(snapshot, input, params);
     let mut seen = std::collections::HashSet::new();
-    PlanIterator::Dynamic(Box::new(input_iter.filter(move |result| {
-        if let Ok(row) = result {
+    PlanIterator::Dynamic(Box::new(input_iter.filter(move |result| match result {
+        Ok(row) => {
             let key = row
                 .columns()
                 .iter()
                 .map(|(_, v)| format!("{:?}", v))
                 .collect::<Vec<_>>()
                 .join(",");
-            if seen.insert(key) {
-                return true;
-            }
+            seen.insert(key)
         }
-        false
+        // Keep upstream errors so the query reports them instead of dropping the row.
+        Err(_) => true,
     })))
 }
 
@@ -141,19 +152,18 @@ pub(super) fn execute_union<'a, S: GraphSnapshot + 'a>(
         PlanIterator::Dynamic(Box::new(chained))
     } else {
         let mut seen = std::collections::HashSet::new();
-        PlanIterator::Dynamic(Box::new(chained.filter(move |result| {
-            if let Ok(row) = result {
+        PlanIterator::Dynamic(Box::new(chained.filter(move |result| match result {
+            Ok(row) => {
                 let key = row
                     .columns()
                     .iter()
                     .map(|(_, v)| format!("{:?}", v))
                     .collect::<Vec<_>>()
                     .join(",");
-                if seen.insert(key) {
-                    return true;
-                }
+                seen.insert(key)
             }
-            false
+            // Keep upstream errors so the query reports them instead of dropping the row.
+            Err(_) => true,
         })))
     }
 }
